@@ -29,6 +29,10 @@ INT_DTYPES = ['uint8', 'int8', 'uint16', 'int16', 'uint32', 'int32', 'uint64', '
 
 def tasks(tier, seed):
     t = [('strings', L) for L in (1, 2, 3, 4)] + [('aliases',), ('small_arrays',), ('fills',), ('popcount',)]
+    if tier == 'thorough':
+        # complete families of larger arrays: all 8^5 arrays of shapes 1x5/5x1, all 8^6 of 2x3/3x2, split by the first value
+        t += [('small_arrays', sh, first) for sh in ((1, 5), (5, 1), (2, 3), (3, 2)) for first in range(8)]
+        t += [('strings', 5)]
     for dt in INT_DTYPES: t.append(('bits', dt))
     return t
 
@@ -180,6 +184,13 @@ def _roundtrip(lg, res, task, a, tag):
 
 
 def _small_arrays(kyupy, lg, res, task):
+    if len(task) > 1:
+        (s, n), first = task[1], task[2]
+        for rest in itertools.product(range(8), repeat=s * n - 1):
+            vals = (first,) + rest
+            a = np.array(vals, dtype=np.uint8).reshape(s, n)
+            _roundtrip(lg, res, task, a, f'{s}x{n}/' + ''.join(map(str, vals)))
+        return
     for s, n in [(1, 1), (1, 2), (2, 1), (1, 3), (3, 1), (1, 4), (4, 1), (2, 2)]:
         for vals in itertools.product(range(8), repeat=s * n):
             a = np.array(vals, dtype=np.uint8).reshape(s, n)
